@@ -36,6 +36,8 @@ func (c *ocodeClient) Emit(line string) error {
 	log.Printf("debug: [ocode_client] emit %s\n", line)
 	ocode, err := parseLineToOcode(line)
 	if err != nil {
+		// 呼び出し側は戻り値を確認しないため、ここで必ず報告する (さもないと命令が黙って消える)
+		log.Printf("error: [ocode_client] cannot emit %q: %v", strings.TrimSpace(line), err)
 		return err
 	}
 	c.Ocodes = append(c.Ocodes, ocode)
